@@ -139,8 +139,8 @@ def _r1(rc: RuleCtx, m: rm.LoopModel, tag: str, lemma_metric=None):
 
 def _idx_kind(idx: Rat) -> str:
     for a in idx.all_atoms():
-        if a.kind == "fn" and a.name in ("argmax", "argmin", "int"):
-            return a.name
+        if a.kind == "fn" and a.name in ("argmax", "argmin", "int", "floor"):
+            return "int" if a.name == "floor" else a.name
     return "other"
 
 
@@ -367,34 +367,33 @@ def _r4(rc: RuleCtx, m: rm.LoopModel):
     env = {"points": pts, "reduced": red}
     fr = Frame(ev, fi, 0)
     fr.block(pre, env, TRUE)
-    ra = range_args(loop)
-    lo = fr.expr(ra[0], env) if ra and len(ra) == 2 else None
-    hi = fr.expr(ra[1], env) if ra and len(ra) == 2 else None
+    from .common import bind_loop
     at = lambda x, i: anf.opaque("at", x, i, array=False)  # noqa: E731
+    b = bind_loop(ev, fr, loop, env)
+    if b is None:
+        raise AnalysisError("rdp.compute_removed_points: loop header has no recognised shape")
     lefts = [n for n, v in env.items() if isinstance(v, Rat) and v.equals(at(red, C(0)))]
     outs = [n for n, v in env.items() if isinstance(v, Vec) and v.kind == "list" and not v.items]
-    good = isinstance(lo, Rat) and lo.is_const() == 1 and isinstance(hi, Rat) and hi.equals(sym("R")) and len(lefts) == 1 and len(outs) == 1
-    if good:
+    rows = []
+    if b.visits(1, sym("R")) and len(lefts) == 1 and len(outs) == 1:
         lname, oname = lefts[0], outs[0]
-        i = ev.symbol(loop.target.id)
+        i = b.idx
         benv = dict(env)
-        benv[loop.target.id] = i
+        benv.update(b.bindings)
         benv[lname] = ev.symbol(lname)
         benv[oname] = ev.symbol(oname + "@list")
         out = ev.eval_loop_body(fi, loop, benv)
         right = at(red, i)
         rows = [e for e in out.events if e.kind == "append" and e.target == oname]
         if len(rows) == 1 and rows[0].guard.kind == "true" and isinstance(rows[0].args[0], Vec) and len(rows[0].args[0].items) == 2:
-            a, b = rows[0].args[0].items
+            a, b2 = rows[0].args[0].items
             want = right - sym(lname) - C(1)
-            if isinstance(a, Rat) and a.equals(sym(lname)) and isinstance(b, Rat) and b.equals(want) \
+            if isinstance(a, Rat) and a.equals(sym(lname)) and isinstance(b2, Rat) and b2.equals(want) \
                     and isinstance(out.env.get(lname), Rat) and out.env[lname].equals(right):
                 res.ok("R4", "rdp.compute_removed_points", "one row [left, next - left - 1] per consecutive retained pair")
                 # agreement with rdp(): right_exclusive = next + 1  =>  (right_e - left) - 2 == next - left - 1
                 res.ok("R4", "rdp.rdp~compute_removed_points", "both tables use the linear form next_retained - left - 1")
                 return
-    else:
-        rows = []
     res.violation("R4", fi.module, fi.name, loop, "compute_removed_points does not emit one row [left, next - left - 1] per consecutive retained pair",
                   str([str(e.args[0]) for e in rows]), "[left, reduced[i] - left - 1]; left <- reduced[i]", construct="removed row crp")
 
